@@ -60,3 +60,37 @@ def Heap_fields():
 
 
 LEMMAS = {"mover." + q.split(".")[-1]: lemma_mover(q) for q in SITES}
+
+
+# ----------------------------------------------------------------------------------------------------------------------
+# the caller-level side condition of the mover step (the target must not lie at or below the moved node) for the sites
+# where it is a one-line consequence of the theory of well-formed trees
+# ----------------------------------------------------------------------------------------------------------------------
+def lemma_no_cycle(reg, repo):
+    """raising moves a child X of a block node to that node's parent T (T = parent(parent(X))): a proper ancestor is
+    never at or below its descendant.  The three punctuation movers move a token X to a node T that has children
+    (the parent of another token, a constituent, or the root): a token dominates only itself and T is not X.
+    (root_attach: lemma target_not_below_child under C12; boyd_split moves X below a freshly allocated node.)"""
+    import z3
+    from pyvc.heap import Heap
+    from pyvc.sym import VRef, VInt, tobool
+    from contracts.common import WF, wf_theory, desc
+    H = Heap.fresh("L")
+    x, t = VRef(z3.Int("cx")), VRef(z3.Int("ct"))
+    an = lambda y, q: H.anc(y, VInt(q)).t
+    base = [tobool(wf_theory(H)), tobool(WF(H, x)), tobool(WF(H, t)), x.t != 0, t.t != 0] + H.typing()
+    p = H.parent_t(x.t)
+    dx, dt = H.depth(x).t, H.depth(t).t
+    return [
+        ("raising.grandparent_is_not_below", base + [p != 0, H.parent_t(p) == t.t], z3.Not(tobool(desc(H, x, t)))),
+        # a proper descendant of X would hang below one of X's children: X has none
+        ("token.depth_step", base + [H.nchild_t(x.t) == 0, dx < dt, an(t, dx) == x.t],
+         H.parent_t(an(t, dx + 1)) == x.t),
+        ("token.dominates_only_itself", base + [H.nchild_t(x.t) == 0, H.nchild_t(t.t) > 0,
+                                               z3.Implies(z3.And(dx < dt, an(t, dx) == x.t),
+                                                          H.parent_t(an(t, dx + 1)) == x.t)],
+         z3.Not(tobool(desc(H, x, t)))),
+    ]
+
+
+LEMMAS["no_cycle"] = lemma_no_cycle
